@@ -101,6 +101,7 @@ const maxDecisions = 1 << 18
 
 type task struct {
 	id      int
+	g       uintptr // identity of the goroutine running the task (getg)
 	wake    chan struct{}
 	done    bool
 	started bool
@@ -245,7 +246,7 @@ func (s *sim) mix(vs ...uint64) {
 //
 //go:norace
 func Mix(str string) {
-	if !s.active {
+	if !mine() {
 		return
 	}
 	h := s.hash
@@ -279,7 +280,7 @@ const (
 //
 //go:norace
 func Yield(site uint32) {
-	if !s.active {
+	if !mine() {
 		return
 	}
 	s.step(site, kStmt)
@@ -290,7 +291,7 @@ func Yield(site uint32) {
 //
 //go:norace
 func YieldW(site uint32) {
-	if !s.active {
+	if !mine() {
 		return
 	}
 	s.step(site, kStore)
@@ -301,7 +302,7 @@ func YieldW(site uint32) {
 //
 //go:norace
 func YieldG(site uint32) {
-	if !s.active {
+	if !mine() {
 		return
 	}
 	s.step(site, kSync)
@@ -506,13 +507,43 @@ func Lock(try func() bool, lock func()) {
 		return
 	}
 	for !try() {
+		if noOthers() && waitForeign(try) {
+			break
+		}
 		s.yieldBlocked()
 	}
 	progress()
 }
 
 //go:norace
-func multi() bool { return s.active && len(s.tasks) > 1 }
+func noOthers() bool { return s.others() == 0 }
+
+// waitForeign: no other task can be holding the lock, so its holder is a goroutine simrt
+// does not schedule (a finalizer, say), which runs in real time: give it a moment before
+// the caller declares a deadlock.
+func waitForeign(try func() bool) bool {
+	for i := 0; i < 400; i++ {
+		runtime.Gosched()
+		time.Sleep(50 * time.Microsecond)
+		if try() {
+			return true
+		}
+	}
+	return false
+}
+
+//go:norace
+func multi() bool { return s.active && len(s.tasks) > 1 && getg() == s.tasks[s.cur].g }
+
+// mine: a run is active and the caller is the simulated task holding the turn. Goroutines
+// simrt does not schedule (finalizers, runtime timers, goroutines of uninstrumented
+// packages) also run instrumented code; for them every seam is the plain operation.
+//
+//go:norace
+func mine() bool { return s.active && getg() == s.tasks[s.cur].g }
+
+//go:norace
+func setG(t *task) { t.g = getg() }
 
 //go:norace
 func progress() { s.blockedSpin = 0 }
@@ -627,7 +658,7 @@ func WGDone(key interface{}, done func()) {
 // WGWait replaces wg.Wait(): yields while the shadow counter is positive, then
 // performs the real Wait (returns at once, keeps the happens-before edge).
 func WGWait(key interface{}, wait func()) {
-	if Active() {
+	if mine() {
 		for !wgZero(key) {
 			s.yieldBlocked()
 		}
@@ -641,7 +672,7 @@ func WGWait(key interface{}, wait func()) {
 
 //go:norace
 func clockOn() (bool, int64, int64) {
-	if s.active && s.cfg.ClockSeam {
+	if mine() && s.cfg.ClockSeam {
 		s.clockNs += 1000 // strictly monotone within a second
 		return true, s.clock, s.clockNs % 1e9
 	}
@@ -672,7 +703,7 @@ func Sleep(d time.Duration) {
 
 //go:norace
 func advance(d time.Duration) bool {
-	if s.active && s.cfg.ClockSeam {
+	if mine() && s.cfg.ClockSeam {
 		s.clock += int64(d / time.Second)
 		return true
 	}
@@ -695,7 +726,7 @@ func (s *sim) yieldSleep() {
 //
 //go:norace
 func Enter(region string) {
-	if !s.active || len(s.tasks) == 0 {
+	if !mine() {
 		return
 	}
 	t := s.tasks[s.cur]
@@ -711,7 +742,7 @@ func Enter(region string) {
 
 //go:norace
 func Leave(region string) {
-	if !s.active || len(s.tasks) == 0 {
+	if !mine() {
 		return
 	}
 	t := s.tasks[s.cur]
@@ -729,7 +760,7 @@ func Leave(region string) {
 //
 //go:norace
 func Count(name string) {
-	if !s.active {
+	if !mine() {
 		return
 	}
 	s.overlap[regionIdx(name)]++
@@ -818,7 +849,7 @@ func setSpawnPanic(id, n0 int, r interface{}) {
 // the race detector sees the happens-before edge of its creation), scheduled like every
 // other simulated task. Outside a simulated run it is a plain go statement.
 func Go(f func()) {
-	if !Active() {
+	if !mine() {
 		go f()
 		return
 	}
@@ -829,6 +860,7 @@ func Go(f func()) {
 	n0 := initialTasks()
 	doneCh := s.doneCh
 	go func() {
+		setG(t)
 		waitTurn(t)
 		func() {
 			defer func() {
@@ -970,6 +1002,7 @@ func Run(cfg Config, bodies ...func()) Result {
 	s.reset(cfg, n)
 	panics := make([]interface{}, n)
 	if n == 1 {
+		setG(s.tasks[0])
 		setActive(true)
 		func() {
 			defer func() {
@@ -996,6 +1029,7 @@ func Run(cfg Config, bodies ...func()) Result {
 	for i := 0; i < n; i++ {
 		i := i
 		go func() {
+			setG(tasks[i])
 			waitTurn(tasks[i])
 			func() {
 				defer func() {
